@@ -109,6 +109,51 @@ def check_heuristic(ctx, lib, rule, b):
             recv = deep_strip(r[2][0])
             clo = r[2][1]
             chain_ok, pred_def = filtered_chain(recv, INT)
+            if not chain_ok and clo[0] == "closure" and recv[0] == "app" and flow.last(recv[1]) == "position" and len(recv[2]) == 2:
+                # interpr.iter().position(|t| !t.is_truth_value()).map(|idx| (Var(idx), v)): the position of the first entry passing the predicate is its index
+                src = deep_strip(recv[2][0])
+                src_ok = src[0] == "app" and flow.last(src[1]) == "iter" and deep_strip(src[2][0]) == INT
+                pc = recv[2][1]
+                ctx.ob(rule, name + ".chain", src_ok and pc[0] == "closure", where=b.where(), expected="interpr.iter().position(undecided)", found=symx.show(recv)[:200])
+                if src_ok and pc[0] == "closure":
+                    pcb = lib.body(pc[1])
+                    for c in shared.CLASSES:
+                        st3 = symx.State()
+                        env3 = eng.closure_env(st3, pcb, [("sym", "cap")] * len(pc[2]))
+                        got = set(p3.ret if p3.end == "return" else ("end", p3.end) for p3 in eng.summarise(pcb, [env3, shared.ref_to(st3, shared.term(c))], st3))
+                        ctx.ob(rule, "%s.filter[%s]" % (name, c), got == {symx.vbool(c == "U")}, where=pcb.where(), expected="position predicate true iff undecided", found=sorted(symx.show(x) for x in got))
+                    cb = lib.body(clo[1])
+                    st2 = symx.State()
+                    env = eng.closure_env(st2, cb, [("sym", "adf")] * len(clo[2]))
+                    I = ("sym", "i")
+                    for p2 in eng.summarise(cb, [env, I], st2):
+                        if p2.end == "return":
+                            n_some += 1
+                            v = deep_strip(p2.ret)
+                            ok = v[0] == "tuple" and v[1][0] == shared.var_of(I) and shared.cls_of_term(v[1][1]) in ("T", "B")
+                            ctx.ob(rule, name + ".proposal", ok, where=cb.where(), expected="(Var(position of the first undecided entry), TOP|BOT)", found=symx.show(v)[:160])
+                continue
+            if not chain_ok and clo[0] == "closure":
+                # some_option.map(|x| (Var(..), t)): the closure is summarised in the state of this path with its real captures; its parameter is the Some payload
+                cb = lib.body(clo[1])
+                st2 = p.state.fork()
+                env = eng.closure_env(st2, cb, list(clo[2]))
+                payload = ("field", ("downcast", r[2][0], "Some"), "0")
+                for p2 in eng.summarise(cb, [env, payload], st2):
+                    if p2.end != "return":
+                        continue
+                    n_some += 1
+                    v = deep_strip(p2.ret)
+                    if v[0] != "tuple" or len(v[1]) != 2:
+                        ctx.cannot(rule, name + ".proposal", "(Var, Term) pair", cb.where(), symx.show(v)[:160])
+                        continue
+                    var, t = v[1]
+                    okt = shared.cls_of_term(t) in ("T", "B")
+                    idx = var[3][0][1] if var[0] == "adt" and var[1] == shared.VAR else None
+                    oki, why = index_of_undecided(idx, p2, INT, lib, ctx, rule, name)
+                    ctx.ob(rule, name + ".proposal", okt and oki, where=cb.where(), expected="(Var(index of an undecided entry of interpr), TOP|BOT)",
+                           found="%s%s" % (symx.show(v)[:200], "; " + why if why else ""))
+                continue
             ctx.ob(rule, name + ".chain", chain_ok, where=b.where(), expected="interpr.iter().enumerate().filter(undecided)...", found=symx.show(recv)[:200])
             if pred_def:
                 pred_table(ctx, lib, rule, name, pred_def)
@@ -219,7 +264,7 @@ def index_in_bounds(pos, coll, p):
     while True:
         if x[0] in ("field", "downcast"):
             x = x[1]
-        elif x[0] == "app" and flow.last(str(x[1])) in ("try_from", "try_into", "into", "from", "unwrap", "expect", "unwrap_or_default") and x[2]:
+        elif x[0] == "app" and flow.last(str(x[1])) in ("try_from", "try_into", "into", "from", "unwrap", "expect", "unwrap_or_default", "ok") and x[2]:
             x = deep_strip(x[2][0])
         else:
             break
@@ -303,6 +348,23 @@ def P_emit(ctx, lib):
                     flagged.append((v[1][0][1], e))
             last_unflagged = [e for f, e in flagged if f is False]
             ctx.ob(rule, "send-excludes-model", len(last_unflagged) >= 1, where=b.where(sends[0]["loc"]), expected="stack.push((false, m.into())) on the sending path", found=[f for f, e in flagged])
+            # ... and the excluded assignment is the emitted model itself: NoGood::from_term_vec of the very vector that is sent (through as_slice / into / clone only).
+            # A weaker nogood (e.g. only the accepted statements - enough for the antichain of stable models) also excludes other two-valued models in two-valued mode.
+            def _base(x):
+                x = deep_strip(x)
+                while x[0] == "app" and flow.last(str(x[1])) in ("as_slice", "into", "clone", "to_vec", "deref", "as_ref", "borrow", "&") and x[2]:
+                    x = deep_strip(x[2][0])
+                return x
+            same_m = False
+            for e in last_unflagged:
+                ng = deep_strip(deep_strip(e["args"][1])[1][1])
+                if ng[0] == "app" and flow.last(str(ng[1])) in ("from_term_vec", "into", "from") and ng[2]:
+                    inner = ng
+                    while inner[0] == "app" and flow.last(str(inner[1])) in ("from_term_vec", "into", "from") and inner[2]:
+                        inner = deep_strip(inner[2][0])
+                    same_m = same_m or _base(inner) == _base(sends[0]["args"][1])
+            ctx.ob(rule, "send-excludes-exactly-the-model", same_m, where=b.where(sends[0]["loc"]), expected="the pushed nogood is from_term_vec(m) of the sent m",
+                   found=[symx.show(deep_strip(e["args"][1]))[:160] for e in last_unflagged])
             bt = named_backtrack(b, p, paths)
             ctx.ob(rule, "send-then-backtrack", bt == symx.vbool(True), where=b.where(sends[0]["loc"]), expected="backtrack = true after sending", found=symx.show(bt) if bt else None)
         elif guard_ok and p.end in ("backedge", "return"):
